@@ -9,10 +9,16 @@ import (
 
 	proto "github.com/kubewharf/kubebrain-client/api/v2rpc"
 
+	"github.com/kubewharf/kubebrain/pkg/backend"
+
 	"kbverif/gate"
 )
 
 type watchState struct {
+	sub        chan []*proto.Event // the hub's channel of this watcher (buffer scaling only)
+	subClosed  bool
+	fillPushed int
+	spawned    bool
 	name     string
 	req      specWatchReq
 	prefix   string
@@ -23,6 +29,7 @@ type watchState struct {
 	received []specEvent
 	closed   bool
 	launched bool
+	start    uint64 // effective start revision (list-then-watch: header of the list + 1)
 }
 
 func (rs *runState) watchReqs() map[string]specWatchReq {
@@ -57,7 +64,11 @@ func (rs *runState) prefixTable() []interface{} {
 
 func (rs *runState) initWatch() {
 	for w, rq := range rs.watchReqs() {
-		rs.watch[w] = &watchState{name: w, req: rq, prefix: rs.env.Prefix + rs.cfg.Prefixes[rq.Prefix]}
+		ws := &watchState{name: w, req: rq, prefix: rs.env.Prefix + rs.cfg.Prefixes[rq.Prefix]}
+		if rq.Start > 0 && rq.Start != listMark {
+			ws.start = uint64(rq.Start)
+		}
+		rs.watch[w] = ws
 	}
 }
 
@@ -69,19 +80,22 @@ func (rs *runState) launchWatcher(ws *watchState) {
 	started := make(chan struct{})
 	go func() {
 		env.Sched.Register(ws.name)
-		env.Rec.Log(gate.Event{"e": "WatchInvoke", "w": ws.name, "prefix": ws.req.Prefix, "start": gate.Clip(ws.req.Start)})
+		env.Rec.Log(gate.Event{"e": "WatchInvoke", "w": ws.name, "prefix": ws.req.Prefix, "start": gate.Clip(ws.start)})
 		close(started)
-		ch, err := env.B.Watch(ctx, ws.prefix, ws.req.Start)
+		ch, err := env.B.Watch(ctx, ws.prefix, ws.start)
 		rs.resMu.Lock()
 		ws.ch, ws.err, ws.returned = ch, err, true
 		rs.resMu.Unlock()
-		env.Rec.Log(gate.Event{"e": "WatchReturn", "w": ws.name, "prefix": ws.req.Prefix, "start": gate.Clip(ws.req.Start), "ok": err == nil})
+		env.Rec.Log(gate.Event{"e": "WatchReturn", "w": ws.name, "prefix": ws.req.Prefix, "start": gate.Clip(ws.start), "ok": err == nil})
 		env.Sched.Finish(ws.name)
 	}()
 	<-started
 }
 
 var noStops = map[string]bool{}
+
+// listMark is the start value that stands for "list first, then watch from the list revision + 1".
+const listMark = 999
 
 func (rs *runState) execWatchStep(s specStep) error {
 	env := rs.env
@@ -92,7 +106,52 @@ func (rs *runState) execWatchStep(s specStep) error {
 	}
 	pe := s.P + ".pe"
 	switch s.A {
+	case "ListFirst":
+		// list the prefix (runs to completion as one step), then watch from header + 1
+		done := make(chan uint64, 1)
+		go func() {
+			env.Sched.Register(s.P)
+			lo := bound{ws.prefix, 0}
+			hi := bound{string(backend.PrefixEnd([]byte(ws.prefix))), 0}
+			for i := 1; i <= len(env.Keys.Names); i++ {
+				if string(env.Keys.Raw(i)) < lo.raw {
+					lo.ceil = i + 1
+				}
+				if string(env.Keys.Raw(i)) < hi.raw {
+					hi.ceil = i + 1
+				}
+			}
+			if lo.ceil == 0 {
+				lo.ceil = 1
+			}
+			if hi.ceil == 0 {
+				hi.ceil = 1
+			}
+			env.Rec.Log(gate.Event{"e": "RInvoke", "p": s.P, "op": "list", "k": 0, "lo": lo.ceil, "hi": hi.ceil, "rev": 0, "limit": 0, "pfx": ws.req.Prefix})
+			resp, err := env.B.List(context.Background(), &proto.RangeRequest{Key: []byte(lo.raw), End: []byte(hi.raw)})
+			ev := gate.Event{"e": "RReturn", "p": s.P, "op": "list", "err": errStr(err), "hdr": 0, "kvs": []interface{}{}, "more": false, "count": 0}
+			var hdr uint64
+			if err == nil {
+				hdr = resp.Header.GetRevision()
+				ev["hdr"] = gate.Clip(hdr)
+				ev["kvs"] = kvList(env, resp.Kvs)
+			}
+			env.Rec.Log(ev)
+			env.Sched.Finish(s.P)
+			done <- hdr
+		}()
+		if _, err := env.Sched.RunToStop(s.P, noStops, to); err != nil {
+			return err
+		}
+		ws.start = <-done + 1
+		return nil
 	case "Subscribe":
+		before := map[chan []*proto.Event]bool{}
+		if rs.cfg.SubCap > 0 {
+			for _, c := range backend.VerifSubs(env.B) {
+				before[c] = true
+			}
+		}
 		rs.launchWatcher(ws)
 		st, err := env.Sched.RunToStop(s.P, map[string]bool{"watch.subscribed": true}, to)
 		if err != nil {
@@ -100,6 +159,14 @@ func (rs *runState) execWatchStep(s specStep) error {
 		}
 		if st.Finished {
 			return fmt.Errorf("Subscribe: Watch returned before watch.subscribed")
+		}
+		if rs.cfg.SubCap > 0 {
+			for _, c := range backend.VerifSubs(env.B) {
+				if !before[c] {
+					ws.sub = c
+				}
+			}
+			rs.topUp(ws)
 		}
 		return nil
 	case "CacheRead":
@@ -123,9 +190,17 @@ func (rs *runState) execWatchStep(s specStep) error {
 		if !rs.diverged && st.Label != s.G {
 			return fmt.Errorf("Decide: %s is at gate %s, specification expects %s", s.P, st.Label, s.G)
 		}
+		reals := rs.realsQueued(ws)
 		st, err = env.Sched.Step(s.P, noStops, to)
 		if err != nil {
 			return err
+		}
+		rs.resMu.Lock()
+		accepted := ws.err == nil
+		rs.resMu.Unlock()
+		if accepted {
+			ws.spawned = true
+			rs.settlePE(ws, reals >= 1)
 		}
 		return nil
 	case "Process":
@@ -136,10 +211,17 @@ func (rs *runState) execWatchStep(s specStep) error {
 		if st.Label != "watch.process" {
 			return fmt.Errorf("Process: %s at %q", pe, st.Label)
 		}
+		reals := rs.realsQueued(ws)
+		rs.checkSubClosed(ws)
 		if _, err = env.Sched.Step(pe, map[string]bool{"watch.processed": true, "watch.closing": true}, to); err != nil {
 			return err
 		}
-		return rs.releasePE(pe)
+		if err = rs.releasePE(pe); err != nil {
+			return err
+		}
+		// a closed and drained channel makes the loop park at watch.closing
+		rs.settlePE(ws, reals >= 1 || ws.subClosed)
+		return nil
 	case "CloseOut":
 		st, err := env.Sched.WaitStop(pe, to)
 		if err != nil {
@@ -163,6 +245,83 @@ func (rs *runState) execWatchStep(s specStep) error {
 		return fmt.Errorf("CloseOut: client channel of %s not closed", s.P)
 	}
 	return fmt.Errorf("unknown watcher action %s", s.A)
+}
+
+// ---- buffer scaling -------------------------------------------------------------------------
+// The specification explores subscriber buffers of capacity SubCap (1 or 2); the real buffer
+// holds 10000 batches. The replayer keeps F = 10000 - SubCap EMPTY batches ("fillers") in the
+// real channel whenever the forwarding loop is not free to consume them (before it is spawned,
+// and while it is parked holding a batch). Empty batches are invisible to the client (filtered
+// to nothing) and do not park the loop, so the abstract occupancy n corresponds to the real
+// occupancy F + n and the hub's "buffer full" branch is reached exactly when the model reaches it.
+
+func (rs *runState) fillersPresent(ws *watchState) int {
+	return ws.fillPushed - rs.env.FillersPassed(ws.name+".pe")
+}
+
+func (rs *runState) checkSubClosed(ws *watchState) {
+	if ws.sub == nil || ws.subClosed {
+		return
+	}
+	for _, c := range backend.VerifSubs(rs.env.B) {
+		if c == ws.sub {
+			return
+		}
+	}
+	ws.subClosed = true
+}
+
+// topUp brings the number of fillers in the channel back to F (non-blocking).
+func (rs *runState) topUp(ws *watchState) {
+	if rs.cfg.SubCap <= 0 || ws.sub == nil {
+		return
+	}
+	rs.checkSubClosed(ws)
+	if ws.subClosed {
+		return
+	}
+	need := backend.VerifWatchBuffer - rs.cfg.SubCap - rs.fillersPresent(ws)
+	for i := 0; i < need; i++ {
+		select {
+		case ws.sub <- []*proto.Event{}:
+			ws.fillPushed++
+		default:
+			return
+		}
+	}
+}
+
+// realsQueued is the number of non-filler batches in the channel (exact while the loop is parked).
+func (rs *runState) realsQueued(ws *watchState) int {
+	if ws.sub == nil {
+		return 0
+	}
+	return len(ws.sub) - rs.fillersPresent(ws)
+}
+
+// settlePE waits until the forwarding loop of ws is parked holding a real batch (expectPark), or
+// has consumed everything and waits for the hub; then restores the fillers if it is parked.
+func (rs *runState) settlePE(ws *watchState, expectPark bool) {
+	if rs.cfg.SubCap <= 0 || ws.sub == nil || !ws.spawned {
+		return
+	}
+	env := rs.env
+	pe := ws.name + ".pe"
+	deadline := time.Now().Add(rs.cfg.Timeout)
+	for time.Now().Before(deadline) {
+		st := env.Sched.Peek(pe)
+		if st.Exists && st.Parked {
+			if st.Label == "watch.process" {
+				rs.topUp(ws)
+			}
+			return
+		}
+		if !expectPark && rs.fillersPresent(ws) == 0 && len(ws.sub) == 0 {
+			return // everything consumed: the loop blocks in its receive
+		}
+		time.Sleep(10 * time.Microsecond)
+	}
+	rs.note("settle: forwarding loop of %s neither parked nor drained", ws.name)
 }
 
 // releasePE lets the forwarding loop go back to its channel receive. If a batch is already
@@ -200,11 +359,22 @@ func (rs *runState) execHubStep(s specStep) error {
 	if st.Label != "hub.item" {
 		return fmt.Errorf("HubDeliver: hub at %q", st.Label)
 	}
+	waitingBefore := map[string]bool{}
+	for _, ws := range rs.watch {
+		if st := env.Sched.Peek(ws.name + ".pe"); ws.spawned && !ws.subClosed && !(st.Exists && st.Parked) {
+			waitingBefore[ws.name] = true
+		}
+	}
 	if _, err = env.Sched.Step("hub", map[string]bool{"hub.delivered": true}, to); err != nil {
 		return err
 	}
 	if err = env.Sched.Release("hub"); err != nil {
 		return err
+	}
+	for _, ws := range rs.watch {
+		rs.checkSubClosed(ws)
+		// a waiting receiver takes the batch at once and parks holding it
+		rs.settlePE(ws, waitingBefore[ws.name])
 	}
 	// receivers that were waiting park at watch.process holding the batch
 	for w := range rs.watch {
